@@ -88,7 +88,7 @@ class Ctx:
             self.vdrive = out
         return out
 
-    def drive(self, out, gen=None, infile=None, shards=8, extra=(), timeout=3000, race=False, pid=None):
+    def drive(self, out, gen=None, infile=None, shards=8, extra=(), timeout=3000, race=False, pid=None, env_extra=None):
         exe = self.build(race)
         cmd = [exe, pid or self.pid, "drive", "-out", out, "-tier", self.tier, "-seed", str(self.seed), "-shards", str(shards)]
         if gen:
@@ -98,7 +98,10 @@ class Ctx:
         cmd += list(extra)
         env = goenv()
         env["GORACE"] = "halt_on_error=1 exitcode=66"
+        env.update(env_extra or {})
         p = subprocess.run(cmd, stdout=subprocess.PIPE, stderr=subprocess.STDOUT, timeout=timeout, text=True, env=env)
+        if race and p.returncode == 66 and "DATA RACE" in p.stdout:
+            return dict(race=True, report=p.stdout[-6000:], segments=0)
         if p.returncode != 0:
             raise Infra("driver failed (%d): %s\n%s" % (p.returncode, " ".join(cmd), p.stdout[-3000:]))
         meta = {}
